@@ -155,10 +155,33 @@ package core
 // The objects held in PodCache are what MigratePod / summaries / fail-over consume later: after an update event for
 // a pod that stays in the same quota, the cache entry must hold the new object (C01: "indistinguishable from figures
 // recomputed from scratch from the same final objects").
-//@ func (*GroupQuotaManager).OnPodUpdate [C01]
+//@ func (*GroupQuotaManager).OnPodUpdate [C01,C19]
 //@   requires gqm != nil && gqm.quotaInfoMap != nil && newPod != nil && oldPod != nil && podKey(newPod) == podKey(oldPod)
 //@   requires forall k string :: has(gqm.quotaInfoMap, k) ==> cacheOK(gqm.quotaInfoMap[k])
 //@   ensures #cache-refresh: oldQuotaName == newQuotaName && has(gqm.quotaInfoMap, newQuotaName) && has(gqm.quotaInfoMap[newQuotaName].PodCache, podKey(newPod)) ==> gqm.quotaInfoMap[newQuotaName].PodCache[podKey(newPod)].pod == newPod
+// Added clauses (the engine rejects a second block for one function, so they are inserted here; #cache-refresh is unchanged).
+// ign = answer of shouldBeIgnored(newPod).
+// Same group (oldQuotaName == newQuotaName, group exists, pod not ignored): the request is counted by exactly one call --
+// the difference (oldPod, newPod) for a cached pod, the whole pod (nil, newPod) after caching a pod that was created before
+// its quota. Used is charged by exactly one call iff the pod was already assigned (difference oldPod -> newPod) or has a
+// node and is not terminated (whole pod, after flagging it assigned); the decision reads the entry-state flag and the NEW
+// pod's node only -- not the phase, not the old pod's node. A pod without a node is never charged, and afterwards the
+// pod is flagged assigned exactly in those cases.
+//@   assert before call updatePodRequestNoLock: #count-request: $arg1 == nil ==> $arg0 == newQuotaName && $arg2 == newPod && isCached(gqm, newQuotaName, newPod) && (oldQuotaName == newQuotaName ==> !old(isCached(gqm, newQuotaName, newPod)))
+//@   assert before call updatePodRequestNoLock: #diff-request: $arg1 != nil && $arg2 != nil ==> oldQuotaName == newQuotaName && $arg0 == newQuotaName && $arg1 == oldPod && $arg2 == newPod && old(isCached(gqm, newQuotaName, newPod))
+//@   assert before call updatePodUsedNoLock: #charge-needs-node: $arg1 == nil ==> $arg0 == newQuotaName && $arg2 == newPod && isAssignedIn(gqm, newQuotaName, newPod) && newPod.Spec.NodeName != "" && (oldQuotaName == newQuotaName ==> !old(isAssignedIn(gqm, newQuotaName, newPod)))
+//@   assert before call updatePodUsedNoLock: #diff-needs-assigned: $arg1 != nil && $arg2 != nil ==> oldQuotaName == newQuotaName && $arg0 == newQuotaName && $arg1 == oldPod && $arg2 == newPod && old(isAssignedIn(gqm, newQuotaName, newPod)) && isAssignedIn(gqm, newQuotaName, newPod)
+//@   assert before call updatePodUsedNoLock: #release-assigned: $arg2 == nil ==> $arg0 == oldQuotaName && $arg1 == oldPod && isAssignedIn(gqm, oldQuotaName, oldPod)
+//@   ensures #same-missing: oldQuotaName == newQuotaName && !old(has(gqm.quotaInfoMap, newQuotaName)) ==> calls("updatePodRequestNoLock") == 0 && calls("updatePodUsedNoLock") == 0 && calls("addPodIfNotPresent") == 0
+//@   ensures #same-request: oldQuotaName == newQuotaName && old(has(gqm.quotaInfoMap, newQuotaName)) && !lastresult("shouldBeIgnored") ==> calls("updatePodRequestNoLock") == 1 && calls("addPodIfNotPresent") == (old(isCached(gqm, newQuotaName, newPod)) ? 0 : 1) && isCached(gqm, newQuotaName, newPod)
+//@   ensures #same-used-iff: oldQuotaName == newQuotaName && old(has(gqm.quotaInfoMap, newQuotaName)) && !lastresult("shouldBeIgnored") ==> calls("updatePodUsedNoLock") <= 1 && (calls("updatePodUsedNoLock") == 1 <==> (old(isAssignedIn(gqm, newQuotaName, newPod)) || (newPod.Spec.NodeName != "" && !util.IsPodTerminated(newPod))))
+//@   ensures #same-flag: oldQuotaName == newQuotaName && old(has(gqm.quotaInfoMap, newQuotaName)) && !lastresult("shouldBeIgnored") ==> (isAssignedIn(gqm, newQuotaName, newPod) <==> (old(isAssignedIn(gqm, newQuotaName, newPod)) || (newPod.Spec.NodeName != "" && !util.IsPodTerminated(newPod))))
+// Moved between groups (oldQuotaName != newQuotaName; quotasDistinct: no two groups share a pod cache): the old group releases
+// what it held; the new group, if it exists and does not hold the pod and the pod is not ignored, caches it, counts its
+// request once and charges used once iff the pod has a node and is not terminated.
+//@   ensures #move-request: oldQuotaName != newQuotaName && old(quotasDistinct(gqm)) ==> calls("updatePodRequestNoLock") == (old(isCached(gqm, oldQuotaName, oldPod)) ? 1 : 0) + (old(has(gqm.quotaInfoMap, newQuotaName)) && !old(isCached(gqm, newQuotaName, newPod)) && !lastresult("shouldBeIgnored") ? 1 : 0)
+//@   ensures #move-used: oldQuotaName != newQuotaName && old(quotasDistinct(gqm)) ==> calls("updatePodUsedNoLock") == (old(isAssignedIn(gqm, oldQuotaName, oldPod)) ? 1 : 0) + (old(has(gqm.quotaInfoMap, newQuotaName)) && !old(isCached(gqm, newQuotaName, newPod)) && !lastresult("shouldBeIgnored") && (newPod.Spec.NodeName != "" && !util.IsPodTerminated(newPod)) ? 1 : 0)
+//@   ensures #move-flag: oldQuotaName != newQuotaName && old(quotasDistinct(gqm)) && old(has(gqm.quotaInfoMap, newQuotaName)) && !old(isCached(gqm, newQuotaName, newPod)) && !lastresult("shouldBeIgnored") ==> isCached(gqm, newQuotaName, newPod) && (isAssignedIn(gqm, newQuotaName, newPod) <==> (newPod.Spec.NodeName != "" && !util.IsPodTerminated(newPod)))
 
 //@ func (*QuotaInfo).refreshPodIfPresent [C01]
 //@   requires cacheOK(qi) && pod != nil
@@ -588,3 +611,20 @@ package core
 //@   ensures #reach-notself: selfQuotaIndex <= 0 ==> (forall q *QuotaInfo :: selfQuotaIndex < 0 || q != old(gqm.quotaInfoMap[quotaName]) ==> q.CalculateInfo.SelfRequest == old(q.CalculateInfo.SelfRequest) && q.CalculateInfo.SelfNonPreemptibleRequest == old(q.CalculateInfo.SelfNonPreemptibleRequest))
 //@   ensures #lists-kept: listsKept()
 //@   modifies all(QuotaInfo).CalculateInfo.Request, all(QuotaInfo).CalculateInfo.NonPreemptibleRequest, all(QuotaInfo).CalculateInfo.ChildRequest, all(QuotaInfo).CalculateInfo.SelfRequest, all(QuotaInfo).CalculateInfo.SelfNonPreemptibleRequest, allmaps(deltaReq)
+
+// ---------- pod add / update events: cached once, request counted once, used counted iff the pod has a node (C01, C19) ----------
+
+// Decision on entry-state facts only. ign = what shouldBeIgnored(pod) answered (terminating pod past its grace period; reads the
+// clock, so it is named by lastresult). A pod that is not ignored, whose quota exists and that is not cached yet is cached
+// and its request counted exactly once; a duplicate add event (already cached) does nothing. Used is charged exactly once,
+// with the pod flagged assigned, exactly when the newly cached pod has a node and is not terminated (Succeeded/Failed) --
+// whatever its phase otherwise (a pod bound just before a scheduler restart is Pending with a node: it counts).
+//@ func (*GroupQuotaManager).OnPodAdd [C01,C19]
+//@   requires quotasOK(gqm) && pod != nil
+//@   assert before call updatePodRequestNoLock: #count-request: $arg0 == quotaName && $arg1 == nil && $arg2 == pod && isCached(gqm, quotaName, pod) && !old(isCached(gqm, quotaName, pod))
+//@   assert before call updatePodUsedNoLock: #charge: $arg0 == quotaName && $arg1 == nil && $arg2 == pod && isAssignedIn(gqm, quotaName, pod) && pod.Spec.NodeName != "" && calls("updatePodRequestNoLock") == 1
+//@   ensures #skip: lastresult("shouldBeIgnored") || !old(has(gqm.quotaInfoMap, quotaName)) || old(isCached(gqm, quotaName, pod)) ==> calls("addPodIfNotPresent") == 0 && calls("updatePodRequestNoLock") == 0 && calls("updatePodUsedNoLock") == 0 && calls("UpdatePodIsAssigned") == 0
+//@   ensures #counted: !lastresult("shouldBeIgnored") && old(has(gqm.quotaInfoMap, quotaName)) && !old(isCached(gqm, quotaName, pod)) ==> calls("addPodIfNotPresent") == 1 && calls("updatePodRequestNoLock") == 1 && isCached(gqm, quotaName, pod)
+//@   ensures #used-iff: calls("updatePodUsedNoLock") == 1 <==> (!lastresult("shouldBeIgnored") && old(has(gqm.quotaInfoMap, quotaName)) && !old(isCached(gqm, quotaName, pod)) && pod.Spec.NodeName != "" && !util.IsPodTerminated(pod))
+//@   ensures #used-once: calls("updatePodUsedNoLock") <= 1
+//@   ensures #flag: !lastresult("shouldBeIgnored") && old(has(gqm.quotaInfoMap, quotaName)) && !old(isCached(gqm, quotaName, pod)) ==> (isAssignedIn(gqm, quotaName, pod) <==> (pod.Spec.NodeName != "" && !util.IsPodTerminated(pod)))
